@@ -351,7 +351,7 @@ fn rebind_real(run: &mut Run, n: usize) -> anyhow::Result<()> {
             let rebound = std::net::UdpSocket::bind(addr).is_ok();
             let mut rebound_later = rebound;
             if !rebound {
-                tokio::time::sleep(Duration::from_millis(500)).await;
+                tokio::time::sleep(Duration::from_millis(1500)).await;
                 rebound_later = std::net::UdpSocket::bind(addr).is_ok();
             }
             Ok((ok, rebound, took, rebound_later))
@@ -363,7 +363,7 @@ fn rebind_real(run: &mut Run, n: usize) -> anyhow::Result<()> {
             run.oracle_fail(json!({"kind": "after shutdown the socket address cannot be re-bound at once", "idle_wait_expired": idle_wait_expired, "case": i, "shutdown_ok": ok, "rebound": rebound, "took_ms": took as u64}));
         }
         if !rebound_later {
-            run.oracle_fail(json!({"kind": "the socket address is still in use 500 ms after shutdown completed (the socket was never released)", "case": i, "shutdown_idle_timeout_ms": if expired_bound { 1 } else { 300 }}));
+            run.oracle_fail(json!({"kind": "the socket address is still in use 1.5 s after shutdown completed (the socket was never released)", "case": i, "shutdown_idle_timeout_ms": if expired_bound { 1 } else { 300 }}));
         }
         run.count("rebind-real-socket", if rebound { "rebound" } else { "address-in-use" });
         run.eval(&format!("rebind{i}"), true);
